@@ -125,3 +125,4 @@ def run(P, R, tier):
 
 
 EXPLANATION += ' Also: (SIMPLEX.init) the default weights of a new machine are n entries of 1/n; G4 accepts only configuration scalars as count floors.'
+EXPLANATION += ' A listed unguarded division absorbs its alternatives in mutually exclusive arms (in-place and allocating spelling of one quotient).'
